@@ -231,7 +231,9 @@ pub fn enumerate(rep: &mut Report, prop: &str, hist_name: &str, db0: &Path, gid:
                 let work = dir.join(format!("w{t}"));
                 let _ = std::fs::remove_dir_all(&work);
                 let _ = std::fs::create_dir_all(&work);
-                let db = work.join("c.db");
+                // the database lives alone in its directory (the at-rest scan of C13 looks at every file in it)
+                let _ = std::fs::create_dir_all(work.join("db"));
+                let db = work.join("db").join("c.db");
                 std::fs::copy(db0, &db).expect("copy");
                 let hp = work.join("h.json");
                 let h = History { db: db.to_string_lossy().to_string(), gid: hx(gid.as_slice()), secret_key: keys.secret_key().to_secret_hex(), db_key: db_key.clone(), calls: calls.clone() };
@@ -247,7 +249,7 @@ pub fn enumerate(rep: &mut Report, prop: &str, hist_name: &str, db0: &Path, gid:
                 }
                 // at-rest scan of the files the dead process left behind (C13)
                 if let Some(scan) = at_rest {
-                    for hit in scan(&work, &site) {
+                    for hit in scan(&work.join("db"), &site) {
                         findings.lock().unwrap().push((format!("{prop}|plaintext-at-rest-after-crash|{hit}"), format!("after a crash at {site} a database file contains {hit} in the clear"), json!({"site": site, "k": k})));
                     }
                     continue;
